@@ -55,7 +55,7 @@ var httpStatusCodeFromRPCIndex = [...]int{
 }
 
 func httpStatusCodeFromRPC(code connect.Code) int {
-	if int(code) > len(httpStatusCodeFromRPCIndex) {
+	if int(code) >= len(httpStatusCodeFromRPCIndex) {
 		return http.StatusInternalServerError
 	}
 	return httpStatusCodeFromRPCIndex[code]
